@@ -18,6 +18,8 @@ import (
 	"math/rand"
 	"os"
 	"runtime"
+	"runtime/debug"
+	"runtime/pprof"
 	"sync"
 	"time"
 
@@ -255,7 +257,7 @@ func parallel(n int, f func(i int)) {
 func (ck *checker) exhaustive() {
 	c := ck.c
 	r := c.Rand("universes4")
-	nU := c.Pick(3, 20)
+	nU := c.Pick(1, 20)
 	us := tl.Universes4(r, nU)
 	type uctx struct {
 		u      *tl.Universe4
@@ -557,14 +559,37 @@ func main() {
 		c.Finish("replay", 0)
 		return
 	}
+	if p := os.Getenv("VERIF_PROF"); p != "" { // developer aid only
+		if f, err := os.Create(p); err == nil {
+			pprof.StartCPUProfile(f)
+		}
+	}
+	// the workload is allocation-bound (every Get on a reopened trie parses up to 64 node
+	// batches); let the heap grow instead of collecting every few milliseconds
+	debug.SetGCPercent(-1)
+	lim := int64(6 << 30)
+	if v := os.Getenv("VERIF_MEMLIMIT_MB"); v != "" {
+		var mb int64
+		fmt.Sscan(v, &mb)
+		lim = mb << 20
+	}
+	debug.SetMemoryLimit(lim)
 	t0 := time.Now()
-	ck.exhaustive()
+	if os.Getenv("VERIF_ONLY") == "" || os.Getenv("VERIF_ONLY") == "exh" {
+		ck.exhaustive()
+	}
 	tA := time.Since(t0)
-	ck.random()
+	only := os.Getenv("VERIF_ONLY") // developer aid only
+	if only == "" || only == "rand" {
+		ck.random()
+	}
 	tB := time.Since(t0) - tA
-	ck.statedbPart()
+	if only == "" || only == "sdb" {
+		ck.statedbPart()
+	}
 	tC := time.Since(t0) - tA - tB
 	fmt.Printf("phase wall: exhaustive=%.1fs random=%.1fs statedb=%.1fs\n", tA.Seconds(), tB.Seconds(), tC.Seconds())
+	pprof.StopCPUProfile()
 	ck.mu.Lock()
 	c.Set("distinct_roots_seen", len(ck.roots))
 	ck.mu.Unlock()
